@@ -50,17 +50,24 @@ func makeNamedType(name string, underlying types.Type) *types.Named {
 }
 
 func makeReflectValue(t types.Type, v value) value {
-	return structure{rtype{t}, v}
+	return structure{rtype{t}, v, false}
 }
 
 // Given a reflect.Value, returns its rtype.
 func rV2T(v value) rtype {
-	return v.(structure)[0].(rtype)
+	if rt, ok := v.(structure)[0].(rtype); ok {
+		return rt
+	}
+	return rtype{nil} // zero reflect.Value (a zeroed variable)
 }
 
 // Given a reflect.Value, returns the underlying interpreter value.
 func rV2V(v value) value {
-	return v.(structure)[1]
+	s := v.(structure)
+	if _, ok := s[0].(rtype); !ok {
+		return nil // zero reflect.Value
+	}
+	return s[1]
 }
 
 // makeReflectType boxes up an rtype in a reflect.Type interface.
@@ -550,6 +557,7 @@ func initReflect(i *interpreter) {
 		rV.SetUnderlying(types.NewStruct([]*types.Var{
 			types.NewField(token.NoPos, r.Pkg, "t", tEface, false), // a lie
 			types.NewField(token.NoPos, r.Pkg, "v", tEface, false),
+			types.NewField(token.NoPos, r.Pkg, "ro", types.Typ[types.Bool], false),
 		}, nil))
 	}
 
@@ -566,6 +574,9 @@ func initReflect(i *interpreter) {
 		"Out":       newMethod(i.reflectPackage, rtypeType, "Out"),
 		"Size":      newMethod(i.reflectPackage, rtypeType, "Size"),
 		"String":    newMethod(i.reflectPackage, rtypeType, "String"),
+	}
+	for _, n := range []string{"IsVariadic", "Key", "Name", "Comparable", "ConvertibleTo", "AssignableTo", "Implements", "Len", "PkgPath"} {
+		i.rtypeMethods[n] = newMethod(i.reflectPackage, rtypeType, n)
 	}
 	i.errorMethods = methodSet{
 		"Error": newMethod(i.reflectPackage, errorType, "Error"),
